@@ -235,6 +235,8 @@ def run(e, cfg):
         c16(sink, cfg, sym_mk(e, cfg), lambda v: v)
     elif k == "time-c14":
         c14t(sink, cfg, sym_mk(e, cfg), lambda v: v)
+    elif k == "time-c18pair":
+        c18pair(sink, cfg, sym_mk(e, cfg), lambda v: v)
     else:
         raise E.ModelGap("unknown time harness %s" % k)
 
@@ -274,6 +276,8 @@ def replay(cfg, inputs, check, info, tag):
             c16(sink, cfg, mk, lambda v: Fraction(v))
         elif k == "time-c14":
             c14t(sink, cfg, mk, lambda v: Fraction(v))
+        elif k == "time-c18pair":
+            c18pair(sink, cfg, mk, lambda v: Fraction(v))
     except Exception as ex:
         import traceback
 
@@ -635,8 +639,15 @@ def c14t(sink, cfg, mk, num):
             sink.check("new-end-points-aligned-to-%s-boundaries" % unit, And(aligned(unit, n_lo), aligned(unit, n_hi)), info=info)
         else:
             pass
+        # sub-second ticks: the new ends sit on the tick grid itself (the first tick or one step before it, the last tick or
+        # one step after it), to within a millisecond
         sub = And(*[g < 10**6 for g in gaps])
-        sink.check("sub-second-ticks-move-ends-by-less-than-a-millisecond-off-the-tick-grid", Implies(sub, And(a.us - n_lo.us < 2 * max_of(gaps, sink), n_hi.us - b.us < 2 * max_of(gaps, sink))), info=info)
+        g0 = gaps[0]
+        on_grid = And(
+            Or(*[And(n_lo.us - (T[0].us - k * g0) <= 1000, (T[0].us - k * g0) - n_lo.us <= 1000) for k in (0, 1)]),
+            Or(*[And(n_hi.us - (T[-1].us + k * g0) <= 1000, (T[-1].us + k * g0) - n_hi.us <= 1000) for k in (0, 1)]),
+        )
+        sink.check("sub-second-ticks-put-the-new-ends-on-the-tick-grid", Implies(sub, on_grid), info=info)
 
 
 def max_of(xs, sink):
@@ -688,6 +699,8 @@ def c18_configs(tier):
                 d["anchor"] = a
                 d["name"] = c["name"].replace("anchor0", "tzanchor%d" % ai)
                 base.append(d)
+    for dt in (2, 3):
+        base.append(dict(name="c18pair-week-range-dt%d" % dt, kind="time-c18pair", unit="week", dt=dt, span=5, weight=40, ylo=2021, yhi=2021, res="h", pair=True))
     for tag, upd in tz_models():
         for c in base:
             if c["kind"] in ("time-c16", "time-c14") and tag == "const" and c["name"].endswith(("tzanchor1", "tzanchor2", "tzanchor3")):
@@ -701,5 +714,57 @@ def c18_configs(tier):
             d.update(upd)
             d["name"] = "tz-%s-%s" % (tag, c["name"])
             d.pop("shards", None)
+            if c.get("pair"):
+                d["shards"] = 8
             out.append(d)
     return out
+
+
+def c18pair(sink, cfg, mk, num):
+    """the same computation under the modelled zone and under UTC must agree (used where no zone-independent oracle is
+    stated: week ranges with a step, whose week-of-year numbering is d3's own convention)"""
+    from vlib import instr
+
+    e = sink.e if sink.mode == "sym" else None
+    unit, dt = cfg["unit"], cfg["dt"]
+    t, t1 = mk("t"), mk("t1")
+    lim = US[unit] * cfg["span"]
+    if sink.mode == "sym":
+        e.assume(t1.us >= t.us)
+        e.assume(t1.us - t.us <= lim)
+    elif not (t.us <= t1.us <= t.us + lim):
+        return
+
+    def once():
+        from labella.d3_time import d3_time
+
+        return [SymDT.lift(x) for x in d3_time[unit].range(t, t1, dt)]
+
+    A = once()
+    if sink.mode == "sym":
+        saved = e.tz
+        e.tz = "utc"
+        instr.fresh_import()
+        B = once()
+        e.tz = saved
+        instr.fresh_import()
+        sink.check("same-result-as-under-UTC", len(A) == len(B) and And(*[a.us == b.us for a, b in zip(A, B)]), info="%s range step %d: %d vs %d members" % (unit, dt, len(A), len(B)))
+    else:
+        # concrete replay: compare with a subprocess running under TZ=UTC
+        import json
+        import subprocess
+        import sys
+
+        code = "import datetime as D, json\nfrom labella.d3_time import d3_time\nt=D.datetime.fromisoformat(%r); t1=D.datetime.fromisoformat(%r)\nprint(json.dumps([x.isoformat() for x in d3_time[%r].range(t, t1, %d)]))" % (t.isoformat(), t1.isoformat(), unit, dt)
+        env = dict(os.environ)
+        env["TZ"] = "UTC"
+        env["PYTHONPATH"] = os.environ.get("VERIF_REPO", "/repo")
+        r = subprocess.run([sys.executable, "-c", code], capture_output=True, text=True, env=env, timeout=120)
+        B = json.loads(r.stdout.strip().splitlines()[-1])
+        sink.check("same-result-as-under-UTC", [a.isoformat() for a in (x if isinstance(x, _dt.datetime) else x for x in d3_time_range_real(unit, t, t1, dt))] == B, info="%s range step %d under TZ=%s vs UTC %s" % (unit, dt, os.environ.get("TZ"), B[:3]))
+
+
+def d3_time_range_real(unit, t, t1, dt):
+    from labella.d3_time import d3_time
+
+    return d3_time[unit].range(t, t1, dt)
